@@ -111,8 +111,7 @@ def _relevance(case, res):
     nodes = m.subgraph.nodes
     n = len(nodes)
     if any(nd.relevant != c.IRRELEVANT for nd in nodes):
-        res.violate("relevance", "C17/relevance/flag-set-before-predict", "a sample is flagged relevant right after fit, before any prediction")
-        return res
+        res.see("flags_set_before_any_prediction")       # not excluded by the statement as long as the flags are right AFTER the prediction pass
     call = safe_call(m.predict, o.Q.copy(), o.IQ.copy()) if m.pre_computed_distance else safe_call(m.predict, o.Q.copy())
     if not call.ok:
         if is_library_domain_error(call.exc):
